@@ -24,14 +24,45 @@ fn to_hole(_a: &SocketAddr, _t: i32) -> ConnectAnswer {
 
 const EST_MS: u64 = 3000;
 
-async fn establishment(h2: bool) -> Result<&'static str, Violation> {
-    let case = json!({"kind":"establishment","sub":"connect","h2":h2});
-    let mk = |sig: &str, what: String| Violation::new(format!("C14:establishment:{sig}:{}", if h2 { "h2" } else { "h1" }), what, case.clone());
-    let cfg = Cfg { clients: USERS.iter().map(|(u, p)| (u.to_string(), p.to_string())).collect(), connect_timeout: Duration::from_millis(EST_MS), ..Cfg::default() };
-    let world = make_world(&cfg).map_err(|e| Violation::new("C14:machinery", e, json!({})))?;
-    let hole = door::black_hole().map_err(|e| Violation::new("C14:machinery", e, json!({})))?;
+/// Where the outbound attempt stalls: the TCP connect itself (direct forwarder), or a SOCKS5
+/// upstream that accepts and then says nothing / stops after its method selection.
+const STALLS: [&str; 3] = ["connect", "socks5-silent", "socks5-silent-after-method-selection"];
+
+async fn establishment(h2: bool, stall: &'static str) -> Result<&'static str, Violation> {
+    let case = json!({"kind":"establishment","sub":"connect","h2":h2,"stall":stall});
+    let mk = |sig: &str, what: String| Violation::new(format!("C14:establishment:{sig}:{}{}", if h2 { "h2" } else { "h1" }, if stall == "connect" { String::new() } else { format!(":{stall}") }), what, case.clone());
+    let mach = |e: String| Violation::new("C14:machinery", e, json!({}));
+    let mut cfg = Cfg { clients: USERS.iter().map(|(u, p)| (u.to_string(), p.to_string())).collect(), connect_timeout: Duration::from_millis(EST_MS), ..Cfg::default() };
+    // the SOCKS5 upstream: reports when the endpoint's connection to it ends
+    let (gone_tx, mut gone_rx) = tokio::sync::mpsc::unbounded_channel::<()>();
+    let mut _socks_task = None;
+    if stall != "connect" {
+        let l = tokio::net::TcpListener::bind("127.0.0.1:0").await.map_err(|e| mach(e.to_string()))?;
+        cfg.socks5 = Some((l.local_addr().unwrap(), false));
+        _socks_task = Some(tokio::spawn(async move {
+            while let Ok((mut s, _)) = l.accept().await {
+                let gone_tx = gone_tx.clone();
+                tokio::spawn(async move {
+                    let mut buf = [0u8; 512];
+                    if stall == "socks5-silent-after-method-selection" {
+                        let _ = s.read(&mut buf).await;
+                        let _ = s.write_all(&[5, 0]).await;
+                    }
+                    loop {
+                        match s.read(&mut buf).await {
+                            Ok(0) | Err(_) => break,
+                            Ok(_) => {}
+                        }
+                    }
+                    let _ = gone_tx.send(());
+                });
+            }
+        }));
+    }
+    let world = make_world(&cfg).map_err(mach)?;
+    let hole = door::black_hole().map_err(mach)?;
     HOLE.with(|h| h.set(hole.port));
-    sys::script_connect(Some(to_hole));
+    sys::script_connect(if stall == "connect" { Some(to_hole) } else { None });
     let handle = tokio::runtime::Handle::current();
     door::spin(20).await;
     let tasks_before = handle.metrics().num_alive_tasks();
@@ -52,7 +83,7 @@ async fn establishment(h2: bool) -> Result<&'static str, Violation> {
         h2c = Some(cl);
     }
     door::spin(300).await;
-    if vh::metrics_snapshot(&world.ctx).outbound_tcp_sockets != 1 {
+    if stall == "connect" && vh::metrics_snapshot(&world.ctx).outbound_tcp_sockets != 1 {
         return Err(Violation::new("C14:machinery", "the connection attempt did not start", case));
     }
     // just before the limit nothing may have been answered
@@ -87,6 +118,12 @@ async fn establishment(h2: bool) -> Result<&'static str, Violation> {
     let g = vh::metrics_snapshot(&world.ctx).outbound_tcp_sockets;
     if g != 0 {
         return Err(mk("attempt-not-abandoned", format!("outbound_tcp_sockets = {g} after the attempt timed out and was reported")));
+    }
+    if stall != "connect" {
+        let mut f = Box::pin(gone_rx.recv());
+        if door::until(&mut f, Duration::from_secs(3)).await.is_none() {
+            return Err(mk("attempt-not-abandoned", "the connection to the SOCKS5 upstream is still open after the attempt timed out and was reported".into()));
+        }
     }
     drop(st);
     drop(h2c);
@@ -170,12 +207,14 @@ pub fn run_into(rep: &mut Report, _tier: Tier) {
     let mut n = 0u64;
     let mut classes = std::collections::BTreeSet::new();
     for h2 in [false, true] {
-        n += 1;
-        match rt::run_paused(establishment(h2)) {
-            Ok(k) => {
-                classes.insert(format!("connect:{h2}:{k}"));
+        for stall in STALLS {
+            n += 1;
+            match rt::run_paused(establishment(h2, stall)) {
+                Ok(k) => {
+                    classes.insert(format!("{stall}:{h2}:{k}"));
+                }
+                Err(v) => rep.violation(v),
             }
-            Err(v) => rep.violation(v),
         }
     }
     for sent in [0usize, 1, 5, HELLO_PREFIX.len()] {
@@ -188,12 +227,15 @@ pub fn run_into(rep: &mut Report, _tier: Tier) {
         }
     }
     rep.sub.push(json!({"sub":"establishment-and-handshake-timeouts","scenarios":n,"passed_classes":classes.len(),
-        "what":"black-hole connect x {h1,h2}: nothing answered at T-1ms, 502/302 at T+1ms, outbound_tcp_sockets back to 0, session and tasks released; real Core::listen on loopback with a ClientHello stalled after {0,1,5,11} bytes: open at T-1ms, dropped at T+1ms, tasks released"}));
+        "what":"outbound attempt stalled at {black-hole connect, SOCKS5 upstream silent after accept, SOCKS5 upstream silent after its method selection} x {h1,h2}: nothing answered at T-1ms, 502/302 at T+1ms, outbound_tcp_sockets back to 0, session and tasks released; real Core::listen on loopback with a ClientHello stalled after {0,1,5,11} bytes: open at T-1ms, dropped at T+1ms, tasks released"}));
 }
 
 pub fn replay(case: &serde_json::Value) -> Result<(), Violation> {
     match case["sub"].as_str() {
-        Some("connect") => rt::run_paused(establishment(case["h2"].as_bool().unwrap_or(false))).map(|_| ()),
+        Some("connect") => {
+            let stall = STALLS.iter().find(|s| Some(**s) == case["stall"].as_str()).copied().unwrap_or("connect");
+            rt::run_paused(establishment(case["h2"].as_bool().unwrap_or(false), stall)).map(|_| ())
+        }
         Some("tls") => rt::run_paused(tls_handshake(case["sent"].as_u64().unwrap_or(0) as usize)).map(|_| ()),
         _ => Err(Violation::new("C14:machinery", "bad replay file", json!({}))),
     }
